@@ -56,6 +56,8 @@ KERNELS = {
     "generate_ordered_map_to_inner_right_unique_partial": {"owner": "C03", "mutated": [4, 5]},
     "generate_ordered_map_to_inner_both_unique_partial": {"owner": "C03", "mutated": [4, 5]},
     "compare_rows_for_journalling": {"owner": "C17", "mutated": [4]},          # returns None: the result is `to_keep`
+    "merge_journalled_entries": {"owner": "C17", "mutated": [5]},              # returns None: the result is `dest`
+    "merge_indexed_journalled_entries_count": {"owner": "C17"},
     "generate_ordered_map_to_left_both_unique": {"owner": "C19", "mutated": [2]},
     "generate_ordered_map_to_left_right_unique": {"owner": "C19", "mutated": [2]},
     "ordered_inner_map_both_unique": {"owner": "C19", "mutated": [2, 3]},      # returns None
@@ -517,9 +519,81 @@ def compare_rows_safe(om, nm, oldf, newf, tk):
     return True
 
 
+def _inr(k, n):
+    """is `a[k]` in range for len(a) == n (a negative subscript within -n..-1 wraps, still in range)"""
+    return -n <= k < n
+
+
+def merge_safe_run(om, nm, tk, old_n, new_n, cap, offsets):
+    """every subscript of merge_journalled_entries (offsets=False: old_n / new_n rows, `cap` destination slots) resp.
+    merge_indexed_journalled_entries_count (offsets=True: old_n / new_n offset entries) is in range"""
+    cur_old = cur_dest = 0
+    for i in range(len(om)):
+        while cur_old <= om[i]:
+            if not _inr(cur_old + (1 if offsets else 0), old_n) or not _inr(cur_old, old_n):
+                return False
+            if not offsets and not _inr(cur_dest, cap):
+                return False
+            cur_old += 1
+            cur_dest += 1
+        if i >= len(tk):
+            return False
+        if tk[i]:
+            if i >= len(nm) or not _inr(nm[i], new_n) or (offsets and not _inr(nm[i] + 1, new_n)):
+                return False
+            if not offsets and not _inr(cur_dest, cap):
+                return False
+            cur_dest += 1
+    return True
+
+
+def _journal_maps(rng):
+    """journalling maps as ordered_generate_journalling_indices produces them, plus keep flags"""
+    no, nn = rng.randrange(0, 8), rng.randrange(0, 6)
+    okeys = sorted(rng.randrange(0, 6) for _ in range(no))
+    nkeys = sorted(rng.sample(range(0, 8), nn))
+    om, nm = [], []
+    for k in sorted(set(okeys) | set(nkeys)):
+        om.append(max((i for i, x in enumerate(okeys) if x == k), default=-1))
+        nm.append(nkeys.index(k) if k in nkeys else -1)
+    tk = [n != -1 and (o == -1 or rng.random() < 0.5) for o, n in zip(om, nm)]
+    return no, nn, om, nm, tk
+
+
+def random_c17_merge(rng, t):
+    no, nn, om, nm, tk = _journal_maps(rng)
+    what = rng.randrange(10)
+    if what == 0:                                       # anything: entries beyond the tables, keep flags without a snapshot row
+        om = [rng.randrange(-1, no + 2) for _ in om]
+        nm = [rng.randrange(-2, nn + 2) for _ in nm]
+        tk = [rng.random() < 0.5 for _ in tk]
+    elif what == 1 and om:
+        nm = nm[:rng.randrange(0, len(nm) + 1)]
+        tk = tk[:rng.randrange(0, len(tk) + 1)]
+    if t % 2 == 0:
+        cap = no + sum(tk) + rng.choice([0, 0, 0, 0, 1, 3, -1])
+        cap = max(cap, 0)
+        old_src = [rng.randrange(-5, 50) for _ in range(no)]
+        new_src = [rng.randrange(50, 99) for _ in range(nn)]
+        return gcase("merge_journalled_entries", [arr(om), arr(nm), barr(tk), arr(old_src), arr(new_src), arr([0] * cap)],
+                     unsafe=not merge_safe_run(om, nm, tk, no, nn, cap, False), fuel=cap + no + 4, _from="random")
+    oi, ni = [0], [0]
+    for _ in range(no):
+        oi.append(oi[-1] + rng.choice([0, 1, 1, 2, 5]))
+    for _ in range(nn):
+        ni.append(ni[-1] + rng.choice([0, 1, 1, 2, 5]))
+    if rng.random() < 0.1:
+        oi = oi[:-1]
+    return gcase("merge_indexed_journalled_entries_count", [arr(om), arr(nm), barr(tk), arr(oi), arr(ni)],
+                 unsafe=not merge_safe_run(om, nm, tk, len(oi), len(ni), 0, True), fuel=len(oi) + 4, _from="random")
+
+
 def random_c17(rng, n_cases):
     out = []
     for t in range(n_cases):
+        if t % 3:
+            out.append(random_c17_merge(rng, t // 3 + t % 3))
+            continue
         no, nn = rng.randrange(0, 8), rng.randrange(0, 8)
         n = rng.randrange(0, 10)
         oldf = [rng.randrange(0, 4) for _ in range(no)]
